@@ -107,6 +107,7 @@ struct Inst {
   std::vector<uint8_t> mirror;
   Inst *twin = nullptr;
   bool faulted = false;  // a fault fired on this instance earlier in the run
+  bool busy = false;     // fine mode: a call on this instance is in flight on its (parked) thread
 };
 struct TaskRt {
   Inst slots[4];
@@ -115,16 +116,20 @@ struct TaskRt {
   bool done = false;
 };
 
+static thread_local int t_cur_ti = 0;  // the task the current thread is executing (threads in fine mode)
+
 struct Run {
   const Plan *p = nullptr;
   RunOptions o;
   std::vector<TaskRt *> tasks;
   Verdict v;
   RunStats st;
-  uint64_t eh = 0xcbf29ce484222325ULL;
+  uint64_t eh = 0xcbf29ce484222325ULL;  // extra events not tied to a task (schedule hash)
+  std::vector<uint64_t> task_eh;         // per task: what that caller observed, in its own order
   bool fault_seen = false;
   RunResult *res = nullptr;
-  void ev(uint64_t x) { eh = (eh ^ x) * 0x100000001b3ULL; }
+  void ev(uint64_t x) { task_eh[t_cur_ti] = (task_eh[t_cur_ti] ^ x) * 0x100000001b3ULL; }
+  void ev_global(uint64_t x) { eh = (eh ^ x) * 0x100000001b3ULL; }
 };
 
 template <class F> static void tramp(void *p) { (*(F *)p)(); }
@@ -240,7 +245,7 @@ static void check_memory(Run &R, int ti, int oi, const Op *op, Inst *cur) {
             return;
           }
         }
-        if (I == cur) continue;
+        if (I == cur || I->busy) continue;
         if (I->m.external && I->ext >= 0 && !I->mirror.empty()) {
           const uint8_t *p = extbuf_ptr(I->ext);
           long n = std::min<long>((long)I->mirror.size(), (long)extbuf_len(I->ext));
@@ -986,10 +991,18 @@ static void exec_op(Run &R, int ti, int oi) {
   const Op &op = R.p->tasks[ti].ops[oi];
   g_cur_task = ti;
   g_cur_op = oi;
+  t_cur_ti = ti;
   g_cur_op_kind = op_name(op.kind);
   R.st.ops++;
   std::vector<CallRec> trace;
   if (R.o.want_trace) T.ctx.trace = &trace;
+  // while this operation is in flight (its thread may be parked inside it), other callers' memory
+  // checks must not compare this instance's buffer with its mirror
+  struct BusyGuard {
+    Inst &i;
+    explicit BusyGuard(Inst &x) : i(x) { i.busy = true; }
+    ~BusyGuard() { i.busy = false; }
+  } busy_guard(T.slots[op.slot & 3]);
   switch (op.kind) {
     case OP_CREATE: exec_create(R, T, ti, oi, op); break;
     case OP_DESTROY: exec_destroy(R, T, ti, oi, op); break;
@@ -1013,7 +1026,7 @@ static void exec_op(Run &R, int ti, int oi) {
   }
   if (R.p->probe && !R.v.violated && (op.kind == OP_SETTER || op.kind == OP_CREATE || op.kind == OP_DESTROY)) probe_all(R, ti, oi, &op);
   if (R.o.verbose) {
-    fprintf(real_out(), "  [t%d op%d] %-16s slot=%d -> event_hash=%016llx%s\n", ti, oi, op_name(op.kind), op.slot, (unsigned long long)R.eh,
+    fprintf(real_out(), "  [t%d op%d] %-16s slot=%d -> event_hash=%016llx%s\n", ti, oi, op_name(op.kind), op.slot, (unsigned long long)R.task_eh[ti],
             R.v.violated ? "  ** VIOLATION **" : "");
   }
 }
@@ -1027,6 +1040,7 @@ static void *task_thread(void *p) {
   ThreadArg *a = (ThreadArg *)p;
   Run &R = *a->R;
   int ti = a->ti;
+  sim_thread_begin();
   fine_task_enter(ti);
   const Task &t = R.p->tasks[ti];
   for (size_t oi = 0; oi < t.ops.size(); oi++) {
@@ -1036,6 +1050,7 @@ static void *task_thread(void *p) {
   }
   R.tasks[ti]->done = true;
   fine_task_exit();
+  sim_thread_end();
   return nullptr;
 }
 
@@ -1073,11 +1088,47 @@ static void run_fine(Run &R) {
   fine_ctl_wait(n + 1);
   for (int i = 0; i < n; i++) pthread_join(th[i], nullptr);
   R.st.switches = fine_switches();
-  R.ev(fine_sched_hash());
+  if (R.res) {
+    R.res->task_steps.clear();
+    for (int i = 0; i < n; i++) R.res->task_steps.push_back(fine_local_steps(i));
+  }
+  R.ev_global(fine_sched_hash());
 }
 
 // ---- entry ----------------------------------------------------------------------------------------------------------------------
+static RunResult run_plan_once(const Plan &p, const RunOptions &o);
+
+// Fine plans with preemptions are executed twice: first with every caller running alone (no
+// preemption), then as planned.  Each caller must observe exactly the same in both (C18).
 RunResult run_plan(const Plan &p, const RunOptions &o) {
+  if (!(p.fine && !p.preempt.empty())) return run_plan_once(p, o);
+  Plan q = p;
+  q.preempt.clear();
+  RunOptions qo = o;
+  qo.verbose = false;
+  RunResult ref = run_plan_once(q, qo);
+  if (ref.v.violated) return ref;
+  RunResult res = run_plan_once(p, o);
+  res.st.ops += ref.st.ops;
+  res.st.asm_checked += ref.st.asm_checked;
+  res.st.steps += ref.st.steps;
+  if (!res.v.violated) {
+    for (size_t t = 0; t < p.tasks.size() && t < ref.task_hashes.size(); t++)
+      if (res.task_hashes[t] != ref.task_hashes[t]) {
+        res.v.violated = true;
+        res.v.cls = "alone";
+        res.v.task = (int)t;
+        res.v.op = -1;
+        res.v.op_kind = "schedule";
+        res.v.detail = "caller task " + std::to_string(t) + " observed other bytes/offsets/return values under this interleaving than when running alone";
+        res.v.in_scope = class_in_scope(p.prop, "alone", 0, true, false, 0, false, false);
+        break;
+      }
+  }
+  return res;
+}
+
+static RunResult run_plan_once(const Plan &p, const RunOptions &o) {
   RunResult res;
   Run R;
   R.p = &p;
@@ -1085,6 +1136,7 @@ RunResult run_plan(const Plan &p, const RunOptions &o) {
   R.res = &res;
   sim_begin_run(p.world);
   for (size_t i = 0; i < p.tasks.size(); i++) R.tasks.push_back(new TaskRt());
+  R.task_eh.assign(p.tasks.size() + 1, 0xcbf29ce484222325ULL);
 
   if (p.fine && p.tasks.size() >= 1) {
     run_fine(R);
@@ -1131,7 +1183,9 @@ RunResult run_plan(const Plan &p, const RunOptions &o) {
   }
   sim_end_run();
   res.v = R.v;
+  for (uint64_t h : R.task_eh) R.ev_global(h);
   res.event_hash = R.eh;
+  res.task_hashes = R.task_eh;
   res.st = R.st;
   res.nontrivial = R.st.asm_checked + R.st.probes + R.st.launches + R.st.bin_files > 0;
   return res;
